@@ -52,6 +52,41 @@ var digitCtxs = []digitCtx{
 }
 
 // digitSuffixes: what follows the symbolic digits (nothing, a trailing dot, further parts).
+// zero-padded parts: a number in the standard's sense however many leading zeros it has (length is not value)
+var paddedCtxs = []digitCtx{
+	{"000000000000", octDigits}, {"0000000000000000000000000", octDigits}, {"0x00000000000", hexDigits}, {"0x000000000000007f0000", hexDigits},
+	{"0X0000000000000000000000", hexDigits}, {"1.2.3.000000000000", octDigits}, {"1.0x0000000000000", hexDigits}, {"0000000000000.0x000000000000.", decDigits},
+}
+
+// mappedHosts: hosts that are numbers only after the domain-to-ASCII mapping (fullwidth digits and letters,
+// ideographic full stop, soft hyphen), written literally and percent-encoded; concrete, because the mapping
+// is the real UTS-46 library's (both in the implementation and in the reference model).
+var mappedHosts = []string{"%EF%BC%91.2.3.4", "\uff11.2.3.4", "%EF%BC%90x7f.1", "\uff10\uff58\uff17\uff46.1", "1%E3%80%822.3.4", "1\u30022.3.4", "1%C2%AD0.0x0.0.01",
+	"%EF%BC%91%EF%BC%92%EF%BC%93", "1.2.3.%EF%BC%94", "%EF%BC%91.2.3.4.5", "a\uff11.2.3.4", "\uff11.2.3.x", "1.2.3.4\u3002", "\u00df.1", "1.\u00e9"}
+
+// VerifC07HostPadded: zero-padded hex/octal/decimal parts of 13..30 characters x K symbolic digits.
+func VerifC07HostPadded() {
+	schemes := []string{"http", "file"}
+	scheme := schemes[vnd.Pick(len(schemes))]
+	dc := paddedCtxs[vnd.Pick(len(paddedCtxs))]
+	n := vnd.Len(vnd.Param("C07.KPadded", 2, 3))
+	checkSpecialHost(scheme, dc.pre+vnd.StrOver(n, dc.alphabet))
+}
+
+// VerifC07HostMapped: the IPv4 decision is taken on the ASCII domain, i.e. after the mapping.
+func VerifC07HostMapped() {
+	scheme := specialSchemes6[vnd.Pick(len(specialSchemes6))]
+	h := mappedHosts[vnd.Pick(len(mappedHosts))]
+	vnd.Cover("mapped-host", true)
+	checkSpecialHost(scheme, h)
+	// and the same text as an opaque host is never an address
+	u, err := Parse("a://" + h + "/")
+	if err == nil && u.IsIPv4() {
+		vnd.Fail("a non-special URL reports an IPv4 host")
+	}
+	compareParse("a://"+h+"/", "", false)
+}
+
 var digitSuffixes = []string{"", ".", ".1", ".1.1.1"}
 
 func verifCheckIPv4Shape(u *Url) {
@@ -128,6 +163,8 @@ func VerifC07HostOpaqueNever() {
 }
 
 func init() {
+	verifHarnesses["VerifC07HostPadded"] = VerifC07HostPadded
+	verifHarnesses["VerifC07HostMapped"] = VerifC07HostMapped
 	verifHarnesses["VerifC07HostIPv4Sigma"] = VerifC07HostIPv4Sigma
 	verifHarnesses["VerifC07HostIPv4Ascii"] = VerifC07HostIPv4Ascii
 	verifHarnesses["VerifC07HostIPv4Digits"] = VerifC07HostIPv4Digits
